@@ -474,7 +474,7 @@ structure NameSpec (s : State) (n : WName) (r : Out WriterErr (Option Prior) × 
     -- the label starts recorded are those of the name now lying at the old cursor
     (∀ g, g ∈ r.2.gLabels → g ∈ s.gLabels ∨ PhysLab r.2.octets s.cursor g) ∧
     -- without compression the name is written literally
-    (s.mode = .disabled → BytesAt r.2.octets s.cursor n.wire)
+    (s.mode = .disabled → BytesAt r.2.octets s.cursor n.wire ∧ r.2.cursor = s.cursor + n.wire.length)
   /-- and the pointer log stays sound -/
   log : ∀ p, r.1 = .ok p → PtrLogOK s → PtrLogOK r.2
 
@@ -597,7 +597,7 @@ theorem writeUncompressedName_spec (n : WName) (s : State) (h : WInv s) (hn : n.
     exact ⟨s.cursor, s.cursor, .here hlt hb0 hnp, Or.inl ⟨rfl, rfl⟩, hC, by omega⟩
   refine ⟨hw, ?_, by rw [← hs']; rfl, by rw [← hs']; rfl, by rw [← hs']; rfl,
     ⟨n.labels, hreadsU, labelsMatch_refl _ _⟩,
-    ⟨n.labels, 0, hwf, hb, Or.inl ⟨rfl, by show s'.cursor - s.cursor = _; rw [hcur, hwl]; omega⟩⟩, ?prov, fun _ => hb⟩
+    ⟨n.labels, 0, hwf, hb, Or.inl ⟨rfl, by show s'.cursor - s.cursor = _; rw [hcur, hwl]; omega⟩⟩, ?prov, fun _ => ⟨hb, hcur⟩⟩
   case prov =>
     intro g hg
     have hg' : g ∈ s'.gLabels := hg
